@@ -181,6 +181,13 @@ func taScenarios(thorough bool) []*scenario {
 	add("ta/resync/duo(B500+B1500)-B500-G1", machine16(), std,
 		[]podSpec{{name: "duo", ns: "default", qos: "Burstable", ctrs: []ctrSpec{{name: "c", t: tB500}, {name: "d", t: tB1500}}}, pods(tB500)[0], pod1("g", "default", "Guaranteed", tG1, nil)},
 		menu{stop: true, resyncTruth: true}, nil)
+	// reserved namespaces come and go by reconfiguration while containers of such a namespace come and go
+	add("ta/rsvns-reconf/mon-B500-mon", machine16(), []cfgSpec{taCfg("rsvns", taReservedNS("monitor*")), taCfg("no-rsvns")},
+		[]podSpec{pod1("m1", "monitoring", "Burstable", tB200, nil), pods(tB500)[0], pod1("m2", "monitoring", "Burstable", tB200, nil)}, menu{stop: true, reconf: []int{0, 1}}, nil)
+	// containers that carry RDT / block I/O class annotations (the cache assigns the class while the container is being inserted)
+	add("ta/class-annotated/G2-B500-BE", machine16(), std,
+		[]podSpec{pod1("a", "default", "Guaranteed", tG2, map[string]string{"blockioclass." + annNS + "/container.c": "slow"}),
+			pod1("b", "default", "Burstable", tB500, map[string]string{"rdtclass." + annNS + "/pod": "gold"}), pods(tBE)[0]}, menu{start: true, stop: true}, nil)
 	// shared containers in inner pools (too big for a NUMA node / a socket) next to exclusive grants below them
 	add("ta/inner/B5000-G2-B500", machine16(), std, pods(tB5000, tG2, tB500), menu{stop: true, remove: true}, nil)
 	add("ta/inner/B9000-G2-G1500", machine16(), std, pods(tB9000, tG2, tG1500), menu{stop: true, remove: true}, nil)
@@ -343,6 +350,13 @@ func blScenarios(thorough bool) []*scenario {
 	add("bl/resync/duo-in-one-balloon", machine16(), []cfgSpec{blCfg("dyn", dyn)},
 		[]podSpec{{name: "duo", ns: "dyn1", qos: "Burstable", ctrs: []ctrSpec{{name: "c", t: tB500}, {name: "d", t: tB1500}}}, nsPod("b", "share", tB500, nil)},
 		menu{stop: true, resyncTruth: true})
+	// 4d. CPU classes on a machine small enough that a resize is refused for lack of free CPUs
+	tight := []*blcfg.BalloonDef{
+		{Name: "fast", Namespaces: []string{"fast"}, MinCpus: 1, MaxCpus: 6, MaxBalloons: 1, CpuClass: "turbo"},
+		{Name: "slow", Namespaces: []string{"slow"}, MaxBalloons: 1, CpuClass: "eco"},
+	}
+	add("bl/classes-refused-resize", machine8(), []cfgSpec{blCfg("tight", tight, blIdleClass("idle"))},
+		[]podSpec{nsPod("a", "fast", tG2, nil), nsPod("b", "slow", tG4, nil), nsPod("c", "fast", tG3, nil)}, menu{stop: true, remove: true})
 	// 5. several balloons with hidden hyperthreads that share idle CPUs: one event re-pins more than one balloon
 	noht := []*blcfg.BalloonDef{
 		{Name: "noht", Namespaces: []string{"noht"}, MinCpus: 1, MaxCpus: 4, PreferNewBalloons: true, HideHyperthreads: bptr(true), ShareIdleCpusInSame: blcfg.CPUTopologyLevelPackage},
@@ -420,6 +434,11 @@ func c04Scenarios(thorough bool) []*scenario {
 	pmemAnn := map[string]string{annMemType: "dram,pmem"}
 	add("ta/mem/2dram/M3G-M3G-BM3G", polTA, machine8(), std, pods(tM3G, tM3G, tBM3G), lm)
 	add("ta/mem/2dram/M5G-M2G-BE", polTA, machine8(), std, pods(tM5G, tM2G, tBE), lm)
+	// a configuration update (even an identical one) re-registers every allocation with the memory allocator: later
+	// admissions must still see what the older containers hold
+	add("ta/mem/2dram+reconf/M3G-M3G-M2G", polTA, machine8(), std, pods(tM3G, tM3G, tM2G), menu{stop: true, reconf: []int{0}})
+	add("bl/mem/2dram+reconf/M3G-M3G-M2G", polBalloons, machine8(), []cfgSpec{blCfg("mem", []*blcfg.BalloonDef{{Name: "mem", Namespaces: []string{"mem"}, MinCpus: 1, MaxCpus: 2, PreferNewBalloons: true}})},
+		[]podSpec{nsPod("a", "mem", tM3G, nil), nsPod("b", "mem", tM3G, nil), nsPod("c", "mem", tM2G, nil)}, menu{stop: true, reconf: []int{0}})
 	add("ta/mem/4dram/M3G-M3G-M3G-BM6G", polTA, machine16(), std, pods(tM3G, tM3G, tM3G, tBM6G), lm)
 	add("ta/mem/pmem/M3G-M5G(pmem)-BM6G(pmem)", polTA, machinePMEM(), std,
 		[]podSpec{pod1("a", "default", "Guaranteed", tM3G, nil), pod1("b", "default", "Guaranteed", tM5G, pmemAnn), pod1("c", "default", "Burstable", tBM6G, pmemAnn)}, lm)
@@ -623,6 +642,17 @@ func c13Scenarios(thorough bool) []*scenario {
 	add("bl/reconf/annotated/b-gamma-a", polBalloons, machine16(),
 		[]cfgSpec{blCfg("base", base), blCfg("other-types:minCPUs>maxCPUs", otherTypes), blCfg("other-types:undefined-load-class", otherTypesLoad)},
 		[]podSpec{nsPod("u", "default", tG1, map[string]string{annBalloon: "b"}), nsPod("w", "default", tB500, map[string]string{annBalloon: "gamma"}), nsPod("x", "a", tG1, nil)}, menu{stop: true})
+	// load classes in force, next to updates that validation refuses and whose load classes differ
+	loadsBase := []*blcfg.BalloonDef{{Name: "a", Namespaces: []string{"a"}, MinCpus: 1, MaxCpus: 2, PreferNewBalloons: true, Loads: []string{"l2"}}, {Name: "b", Namespaces: []string{"b"}, MaxCpus: 2}}
+	loadsDup := []*blcfg.BalloonDef{{Name: "a", Namespaces: []string{"a"}, Loads: []string{"l2"}}, {Name: "a", Namespaces: []string{"b"}}}
+	withLoads := func(lcs ...blcfg.LoadClass) blOpt {
+		return func(c *cfgapi.BalloonsPolicy) { c.Spec.Config.LoadClasses = lcs }
+	}
+	add("bl/reconf/loads/G1-G1-G1", polBalloons, machine16(),
+		[]cfgSpec{blCfg("base", loadsBase, withLoads(blcfg.LoadClass{Name: "l2", Level: blcfg.CPUTopologyLevelCore})),
+			blCfg("duplicate-types+load-relaxed", loadsDup, withLoads(blcfg.LoadClass{Name: "l2", Level: blcfg.CPUTopologyLevelCore, OverloadsLevelInBalloon: true})),
+			blCfg("undefined-load-class+none-defined", noLoad)},
+		[]podSpec{nsPod("x", "a", tG1, nil), nsPod("y", "a", tG1, nil), nsPod("z", "a", tG2, nil)}, menu{stop: true})
 	blCfgs2 := []cfgSpec{
 		blCfg("base", base, blIdleClass("idle")),
 		blCfg("classes-only", base, blIdleClass("lazy")),
